@@ -50,7 +50,11 @@ U(dim, sc, off, s) == [dim |-> dim, sc |-> sc, off |-> off, s |-> s]
 NoU == U(Dim0, ROne, RZero, "-")
 Dless == U(Dim0, ROne, RZero, "dimensionless")
 \* the dyadic model registry (harness/impl_c18.py builds exactly this) + a few default symbols
-UnitNames == {"la", "lb", "ta", "K", "oc", "tl", "na", "lr"}
+UnitNames == {"la", "lb", "ta", "K", "oc", "tl", "na", "lr", "dC", "dF", "Rk", "km", "mi"}
+\* scales of the default table that are not dyadic (5/9, 1609.344): the model does not compute with them - an opaque
+\* token per distinct float (equal tokens = equal scales, so Unit.__eq__ is still decided)
+Sc59 == <<901, 0>>
+ScMi == <<902, 0>>
 UnitOf(nm) ==
   CASE nm = "la" -> U(DimL, ROne, RZero, "la")
     [] nm = "lb" -> U(DimL, R(8), RZero, "lb")
@@ -60,6 +64,13 @@ UnitOf(nm) ==
     [] nm = "tl" -> U(DimTL, ROne, RZero, "T*la")      \* not reducible in cgs
     [] nm = "na" -> Dless
     [] nm = "lr" -> U(Dim0, R(8), RZero, "lb/la")       \* dimensionless ratio whose spelling cancels to a coefficient
+    \* real (non-dyadic) scales of the default table: conversions between them round in every floating point type, so
+    \* the ORDER of the floating point operations of a conversion route is visible in the numbers
+    [] nm = "dC" -> U(DimTh, ROne, <<-27315, 100>>, "degC")
+    [] nm = "dF" -> U(DimTh, Sc59, <<-45967, 100>>, "degF")
+    [] nm = "Rk" -> U(DimTh, Sc59, RZero, "R")
+    [] nm = "km" -> U(DimL, R(1000), RZero, "km")
+    [] nm = "mi" -> U(DimL, ScMi, RZero, "mile")
     [] nm = "J" -> U(DimE, ROne, RZero, "J")
     [] nm = "Hz" -> U(DimF, ROne, RZero, "Hz")
     [] OTHER -> NoU
@@ -104,10 +115,15 @@ Dead == Obj("-", "", NoU, <<>>)
 Live(S, o) == S[o].k # "-"
 IsArr(S, o) == S[o].k \in {"A", "Q"}
 LenOf(S, o) == Len(S[o].n)
-IsInt(dt) == dt \in {"i8", "i4", "i2", "i1"}
-FloatOfInplace(dt) == CASE dt = "i8" -> "f8" [] dt = "i4" -> "f4" [] dt = "i2" -> "f2" [] OTHER -> dt
-FloatOfCopy(dt) == CASE dt = "i8" -> "f8" [] dt = "i4" -> "f4" [] dt \in {"i2", "i1"} -> "f2" [] OTHER -> dt
-SizeOf(dt) == CASE dt \in {"f8", "i8"} -> 8 [] dt \in {"f4", "i4"} -> 4 [] dt \in {"f2", "i2"} -> 2 [] OTHER -> 1
+IsInt(dt) == dt \in {"i8", "i4", "i2", "i1", "u8", "u4", "u2", "u1"}
+FloatOfInplace(dt) == CASE dt \in {"i8", "u8"} -> "f8" [] dt \in {"i4", "u4"} -> "f4" [] dt \in {"i2", "u2"} -> "f2" [] OTHER -> dt
+FloatOfCopy(dt) == CASE dt \in {"i8", "u8"} -> "f8" [] dt \in {"i4", "u4"} -> "f4" [] dt \in {"i2", "i1", "u2", "u1"} -> "f2" [] OTHER -> dt
+SizeOf(dt) == CASE dt \in {"f8", "i8", "u8"} -> 8 [] dt \in {"f4", "i4", "u4"} -> 4 [] dt \in {"f2", "i2", "u2"} -> 2 [] OTHER -> 1
+\* a number held in floating point type dt: itself when it certainly fits the significand (float16: 11 bits, float32: 24
+\* bits; the denominator a power of two), otherwise the model does not predict the rounding (opaque)
+Pow2(d) == d \in {1, 2, 4, 8, 16, 32, 64, 128, 256, 512, 1024, 2048, 4096, 8192, 16384}
+Fl(dt, a) == IF SizeOf(dt) = 8 \/ IsOpq(a) THEN a
+             ELSE IF Sm(a) /\ Pow2(a[2]) /\ (SizeOf(dt) = 4 \/ (a[1] < 2048 /\ a[1] > -2048)) THEN a ELSE Opaque
 \* NumPy "safe" casting (np.putmask)
 SafeCast(from, to) ==
   IF IsInt(from) = IsInt(to) THEN SizeOf(from) <= SizeOf(to)
@@ -135,7 +151,9 @@ Call(op, f, x, y, o, u, e) == [op |-> op, f |-> f, x |-> x, y |-> y, o |-> o, u 
 \*   gunary  f = unary ufunc np.f(x)        garrfn f = array function of (x, y)        gmethod f = ndarray method / reduction of x
 \*   After a generic copying call the harness OVERWRITES every element of the returned object(s): an input that changes
 \*   then shared its memory with a result that is documented to be new.
-GOps == {"gufunc", "gunary", "garrfn", "gmethod"}
+\*   gorder  f = a function that sorts / partitions / selects by rank (sort, partition, median, percentile, quantile and
+\*           their nan-aware forms, unique, argsort ...) of x: NumPy offers to use the input as scratch space there
+GOps == {"gufunc", "gunary", "garrfn", "gmethod", "gorder"}
 CopyOps == GOps \cup {"in_units", "to", "to_value", "in_base", "in_cgs", "in_mks", "to_equivalent", "binop", "ufunc", "unary", "copy",
             "concatenate", "dot", "clip", "aunit", "umul", "udiv", "upow", "ubase", "ucoeff", "ucopy", "usimplify", "units_simplify"}
 InplaceOps == {"convert_to_units", "convert_to_base", "convert_to_cgs", "convert_to_mks", "convert_to_equivalent",
@@ -146,6 +164,7 @@ InplaceOps == {"convert_to_units", "convert_to_base", "convert_to_cgs", "convert
 \*   e = variant: "ok" | "ro" read-only target | NumPy-level refusals named by the form itself (out-of-bounds index, wrong
 \*       number of outputs, casting="no", mask of the wrong size, ...); wrong-shaped and wrong-dtype targets arise from the
 \*       choice of the target object.  The target is c.o when given (out= forms), otherwise c.x.
+GPartial == {"uf_mul_reduce_k", "uf_div_reduce_k", "uf_add_reduce_k", "m_prod_k", "m_sum_k"}
 IsInplace(c) == c.op \in InplaceOps
 \* the target of an in-place call
 Target(c) == IF c.op \in {"ufunc_out", "unary_out"} \/ (c.op = "gin" /\ c.o # "") THEN c.o ELSE c.x
@@ -157,7 +176,9 @@ TwinOp(c) ==
     [] c.op = "unary_out" -> "unary" [] c.op \in {"setitem0", "setitemall"} -> "to_target_unit"
     [] c.op = "copyto" -> "copy_src"
     \* out= forms of the generic family: the same call without out= (only for the plain variant)
-    [] c.op = "gin" /\ c.o # "" /\ c.e = "ok" -> "gcopy" [] OTHER -> ""
+    \* (forms that write one slot of the target - a reduction with keepdims into out=o[:1] - have no copying call that
+    \*  yields the numbers of the whole target: P2 / P3 only)
+    [] c.op = "gin" /\ c.o # "" /\ c.e = "ok" /\ c.f \notin GPartial -> "gcopy" [] OTHER -> ""
 
 \* operand y may be an object or the bare number 2
 YLive(S, y) == y = "two" \/ (y \in ArrSlots /\ Live(S, y) /\ IsArr(S, y))
@@ -176,19 +197,22 @@ Raise(S) == [ex |-> TRUE, S |-> S, res |-> Dead]
 Ok(S, res) == [ex |-> FALSE, S |-> S, res |-> res]
 
 (* ---- conversion (array.py in_units / convert_to_units) ---- *)
-ConvNums(ns, uo, un) ==
+\* ConvNumsIn(dt, ...): the route of in_units and convert_to_units alike - scale (integers: in double precision), hold
+\* the product in the float type dt of the result, then subtract the offset of the target scale in that type
+ConvNumsIn(dt, ns, uo, un) ==
   LET ratio == NDiv(uo.sc, un.sc)
       offset == IF NIsZero(uo.off) /\ NIsZero(un.off) THEN RZero ELSE NSub(NMul(ratio, uo.off), un.off) IN
-  [i \in DOMAIN ns |-> NSub(NMul(ns[i], ratio), offset)]
+  [i \in DOMAIN ns |-> LET sc == Fl(dt, NMul(ns[i], ratio)) IN IF offset = RZero THEN sc ELSE Fl(dt, NSub(sc, offset))]
+ConvNums(ns, uo, un) == ConvNumsIn("f8", ns, uo, un)
 \* target unit from a name: [ok, u]
 Target_(nm) == IF KnownName(nm) THEN [ok |-> TRUE, u |-> UnitOf(nm)] ELSE [ok |-> FALSE, u |-> NoU]
 ConvCopy(S, x, tu) == \* tu = [ok, u]
   IF ~tu.ok \/ tu.u.dim # S[x].u.dim THEN Raise(S)
-  ELSE Ok(S, Obj(S[x].k, FloatOfCopy(S[x].dt), tu.u, ConvNums(S[x].n, S[x].u, tu.u)))
+  ELSE Ok(S, Obj(S[x].k, FloatOfCopy(S[x].dt), tu.u, ConvNumsIn(FloatOfCopy(S[x].dt), S[x].n, S[x].u, tu.u)))
 ConvInplace(S, x, tu) ==
   IF ~tu.ok \/ tu.u.dim # S[x].u.dim THEN Raise(S)
-  ELSE IF S[x].dt = "i1" THEN Raise(S)            \* validate -> (retype) -> assign unit -> mutate data
-  ELSE Ok(Put(S, x, ConvNums(S[x].n, S[x].u, tu.u), tu.u, FloatOfInplace(S[x].dt)), Dead)
+  ELSE IF S[x].dt \in {"i1", "u1"} THEN Raise(S)   \* validate -> (retype) -> assign unit -> mutate data
+  ELSE Ok(Put(S, x, ConvNumsIn(FloatOfInplace(S[x].dt), S[x].n, S[x].u, tu.u), tu.u, FloatOfInplace(S[x].dt)), Dead)
 
 (* ---- equivalences (to_equivalent / convert_to_equivalent) ---- *)
 EquivDims(e) == CASE e = "thermal" -> {DimTh, DimE} [] e = "spectral" -> {DimL, DimF, DimE, <<-1, 0, 0, 0, 0>>} [] OTHER -> {}
@@ -291,7 +315,7 @@ Apply(S, c) ==
          IF r.ex \/ c.op # "to_value" THEN r ELSE Ok(S, Dead)
     [] c.op \in {"in_base", "in_mks", "in_cgs"} ->
          LET b == UBase(S[x].u, IF c.op = "in_cgs" THEN "cgs" ELSE "mks") IN
-         IF ~b.ok THEN Raise(S) ELSE Ok(S, Obj(S[x].k, FloatOfCopy(S[x].dt), b.u, ConvNums(S[x].n, S[x].u, b.u)))   \* via in_units (36aece9)
+         IF ~b.ok THEN Raise(S) ELSE Ok(S, Obj(S[x].k, FloatOfCopy(S[x].dt), b.u, ConvNumsIn(FloatOfCopy(S[x].dt), S[x].n, S[x].u, b.u)))   \* via in_units (36aece9)
     [] c.op = "convert_to_units" -> ConvInplace(S, x, Target_(c.u))
     [] c.op \in {"convert_to_base", "convert_to_mks", "convert_to_cgs"} ->
          LET b == UBase(S[x].u, IF c.op = "convert_to_cgs" THEN "cgs" ELSE "mks") IN
@@ -454,7 +478,11 @@ TwinApplies(B, c) == /\ TwinOp(c) # "" /\ ~(c.op \in {"setitem0", "setitemall", 
 \* (an in-place call computes in the target's own item size, the copying call possibly wider: where a result is not a
 \*  small exact number - overflow to inf in float16/float32, wrap-around of int16 - the two differ by range/precision,
 \*  which is C17's subject; on 8-byte data the comparison is always made)
-Narrow(B, Af, c, tw) == SizeOf(B[Target(c)].dt) # 8 /\ ((\E j \in DOMAIN Af[Target(c)].n : IsOpq(Af[Target(c)].n[j])) \/ (\E j \in DOMAIN tw.n : IsOpq(tw.n[j])))
+\* (a plain unit conversion is different: convert_to_units/_base/_cgs/_mks and in_units/in_base/in_cgs/in_mks are the
+\*  same arithmetic on the same item size - documented as "the in-place form of" each other - so their numbers are
+\*  compared bit for bit in EVERY dtype: a route that rounds in another order or another type shows up here)
+PlainConv(c) == c.op \in {"convert_to_units", "convert_to_base", "convert_to_cgs", "convert_to_mks"}
+Narrow(B, Af, c, tw) == ~PlainConv(c) /\ SizeOf(B[Target(c)].dt) # 8 /\ ((\E j \in DOMAIN Af[Target(c)].n : IsOpq(Af[Target(c)].n[j])) \/ (\E j \in DOMAIN tw.n : IsOpq(tw.n[j])))
 P4_Twin(B, Af, c, ex, tw) ==
   (IsInplace(c) /\ ~ex /\ TwinApplies(B, c) /\ ~Narrow(B, Af, c, tw)) => (~tw.ex /\ TwinNums(c, Af[Target(c)].n, B[Target(c)].n, tw.n))
 
